@@ -247,7 +247,7 @@ class C16(Prop):
             parts = impl.split(' ')
             if len(parts) != 3 or parts[0] != lex(ea, eb): return 'cmp differs from bytewise order of the deterministic encodings (texts of %d and %d bytes): %s' % (m['x'][0], m['y'][0], impl[:30])
             return None
-        if impl in ('panic', 'bad-partial'): return 'comparison panicked, or partial_cmp / one of the operators <, <=, >, >=, != or max / min disagrees with cmp and =='
+        if impl in ('panic', 'bad-partial'): return 'comparison panicked, or partial_cmp / one of the operators <, <=, >, >=, != or max / min / clamp disagrees with cmp and =='
         def enc(x):
             if x[0] in 'AP': return refcbor.encode(('int', int(x[1:])))
             if x[0] == 'X': return refcbor.encode(('text', bytes.fromhex(x[1:])))
